@@ -1739,11 +1739,20 @@ fn compile_expr(
                 .get(&type_name)
                 .unwrap_or_else(|| panic!("Struct {} not found", type_name.0));
             let inst_fields = instantiate_struct_fields(struct_def, &type_args);
-            let (field_index, _) = inst_fields
+            // The typer lets one field name through that no struct declares (the placeholder the
+            // editor's completion query inserts after a dot); report it here instead of giving up.
+            let Some((field_index, _)) = inst_fields
                 .iter()
                 .enumerate()
                 .find(|(_, (name, _))| name == field_name)
-                .unwrap_or_else(|| panic!("Struct {} has no field {}", type_name.0, field_name));
+            else {
+                diagnostics.push(Diagnostic::new(
+                    Stage::other("compile"),
+                    Severity::Error,
+                    format!("Struct {} has no field {}", type_name.0, field_name),
+                ));
+                return emissing(ty);
+            };
             core::Expr::EConstrGet {
                 expr: Box::new(expr_core),
                 constructor: common::Constructor::Struct(common::StructConstructor { type_name }),
